@@ -382,6 +382,7 @@ def run(tier: str, seed: int) -> int:
         oc.violation({'property': PROP, 'kind': 'correspondence-broken',
                       'unchecked': 'model (Qco.ChId.matches / Qco.uniqueInOrder / Model/Ident.lean) <-> implementation',
                       'first_differences': disagreements[:5], 'count': len(disagreements)}, found_input=False)
+    sem = common.pysem_stage(oc, PROP, ['ident'], seed, tier)
     if not proof_ok and not oc.violations:
         oc.violation({'property': PROP, 'kind': 'proof-obligation-broken', 'unchecked': lean.get('failed'),
                       'build_output': lean.get('build_output', '')[-3000:], 'axioms': lean.get('axioms')},
@@ -398,6 +399,7 @@ def run(tier: str, seed: int) -> int:
             'tuples/strings ignored'],
         'theorems': lean.get('theorems', []),
         'axioms': lean.get('axioms', {}),
+        **sem,
         'evaluations': len(lines) + n_triples,
         'distinct_nontrivial': len(nontrivial),
         'exhaustive': True,
